@@ -1809,6 +1809,10 @@ def _replay_sq4(case, clause, model, seed):
             # frame spacing 50 steps with dt = 0.002: the lag times 0.1, 0.2, 0.3, ... whose float quotients by 0.1 are not all integers
             w["ts"] = np.arange(T) * 50
             w["dt"] = 0.002
+        if w["H"] is not None:
+            # precondition of the sq4 contract (and of the statement's "structure factor ... averaged over origins"): one cell for all
+            # frames, so that every origin frame has the same wave vectors; a cell that changes between frames is NOT_DECIDED
+            w["H"][:] = w["H"][0]
         H = w["H"]
         if H is None:
             H = np.stack([np.diag(rng.uniform(4.0, 6.0, size=d))] * T)
